@@ -68,12 +68,41 @@ def make_world(sx, tt, oldlen):
         return worlds.T4World(sx, 0x20, 255, 255, 32, oldlen, typ="A", fsci=8, fill=0x41)
     if tt == "tt4b":
         return worlds.T4World(sx, 0x30, 20, 9, 32, oldlen, typ="B", fsci=4, fill=0x41)
+    if tt == "tt4chain":
+        # FSC 16: every UPDATE BINARY / READ BINARY answer of 20 bytes is chained
+        return worlds.T4World(sx, 0x20, 20, 20, 40, oldlen, typ="A", fsci=0, tx_size=13, fill=0x41)
     raise ValueError(tt)
 
 
-def attempts(world):
-    """documented number of attempts per command"""
+def attempts(world, tag):
+    """documented number of attempts per command: three for Type 1/2/3; for
+    ISO-DEP the retry budget derived from the frame waiting time plus one"""
+    dep = getattr(tag, "_dep", None)
+    if dep is not None:
+        return dep.n_retry_nak + 1
     return 3
+
+
+def activation_faults(sx, tt, kinds, lengths):
+    """faults during nfc.tag.activate(): a tag object or the documented None,
+    never an exception"""
+    w = make_world(sx, tt, 5)
+    burst = Burst(sx, kinds, lengths)
+    w.sim.hook = burst
+    try:
+        tag = w.fresh_tag()
+    except nfc.tag.TagCommandError:
+        # (activation is documented to return None on communication errors;
+        # a TagCommandError is at least the documented error type)
+        sx.reach("activation_tag_command_error")
+        tag = None
+    w.sim.hook = None
+    if burst.started:
+        sx.reach("fault:" + burst.kind)
+        sx.reach("activation_with_fault")
+    else:
+        sx.reach("no_fault")
+    return ["activated" if tag is not None else "none", burst.at]
 
 
 def op_faults(sx, tt, op, kinds, lengths):
@@ -123,7 +152,11 @@ def op_faults(sx, tt, op, kinds, lengths):
         sx.reach("no_fault")
         return ["clean", op]
     sx.reach("fault:" + burst.kind)
-    absorbed_expected = burst.length < attempts(w) and tt not in ("tt4a", "tt4b")
+    absorbed_expected = burst.length < attempts(w, tag)
+    if tt.startswith("tt4") and burst.kind == "protocol":
+        # ISO/IEC 14443-4 has no recovery for protocol errors: documented as
+        # unrecoverable, reported at once with PROTOCOL_ERROR
+        absorbed_expected = False
     if outcome[0] == "TagCommandError":
         sx.reach("ended_in_tag_command_error")
         errno = outcome[1]
@@ -192,7 +225,8 @@ def partitions(tier):
            "tt3": ["read", "write", "present", "dump"],
            "tt3emu": ["read", "write"],
            "tt4a": ["read", "write", "present", "format"],
-           "tt4b": ["read", "write"]}
+           "tt4b": ["read", "write"],
+           "tt4chain": ["read", "write"]}
     if tier != "quick":
         for tt in ("tt2", "tt1", "tt1dyn", "tt4a"):
             ops[tt].append("formatwipe")
@@ -204,13 +238,16 @@ def partitions(tier):
                 lengths = [1, 2, 3] if tier == "quick" else [1, 2, 3, 4]
                 parts.append(dict(name="%s:%s:%s" % (tt, op, kind), fn="op_faults",
                                   params=dict(tt=tt, op=op, kinds=[kind], lengths=lengths)))
+    for tt in ("tt2", "tt1", "tt1dyn", "tt3", "tt4a", "tt4b"):
+        for kind in ("timeout", "transmission", "protocol"):
+            parts.append(dict(name="%s:activate:%s" % (tt, kind), fn="activation_faults",
+                              params=dict(tt=tt, kinds=[kind], lengths=[1, 3] if tier == "quick" else [1, 2, 3, 4])))
     return parts
 
 
 MUST_REACH = ["no_fault", "fault:timeout", "fault:transmission", "fault:protocol",
-              "absorbed", "ended_in_tag_command_error"]
+              "absorbed", "ended_in_tag_command_error", "activation_with_fault"]
 BOUNDS = {"quick": "one burst (length 1..3, kind timeout/transmission/protocol, command or response lost) at every command position of read/write/presence/format/protect/dump on one small world per tag type",
           "thorough": "burst lengths 1..4"}
-OUTSIDE = ["two separate bursts in one operation", "vendor specific tag classes other than Topaz/Topaz-512",
-           "ISO-DEP retry budgets are judged in C12"]
+OUTSIDE = ["two separate bursts in one operation", "vendor specific tag classes other than Topaz/Topaz-512"]
 ASSUMPTIONS = ["a failing exchange either never reaches the tag or is executed with the response lost"]
